@@ -74,6 +74,7 @@ def program(g, i):
         bl = list(dict.fromkeys(bs))
         attrs.append("bounds(" + ", ".join(reversed(bl) if rev else bl) + ")")
     if rev: attrs.reverse()
+    if "cratepath" in M: attrs.insert(len(attrs) // 2, "crate = ::sinfo")
     head = "#[derive(TypeInfo)]\n" + "".join("#[scale_info(%s)]\n" % a for a in attrs)
     gtxt = "<" + ", ".join(gdecl) + ">"
     w = (" where " + ", ".join(wh)) if wh else ""
@@ -101,7 +102,10 @@ def program(g, i):
     pre2 = ""
     if any(namedp.values()):      # a trait whose associated type carries the deriving type's name
         pre2 = "pub trait Named { type %s; }\nimpl Named for u8 { type %s = u32; }\nimpl Named for R { type %s = u8; }\nimpl Named for RC { type %s = u8; }\n" % ((name,) * 4)
-    return PRE + pre2 + head + body + "\nfn main() { ok::<%s<%s>>(); }\n" % (name, ", ".join(args)), head + body
+    prog = PRE + pre2 + head + body + "\nfn main() { ok::<%s<%s>>(); }\n" % (name, ", ".join(args))
+    if "cratepath" in M:      # the library is linked under ANOTHER name: nothing the derive emits may say `scale_info`
+        prog = "// extern-rename: scale_info=sinfo\n" + prog.replace("scale_info::", "sinfo::")
+    return prog, head + body
 
 # constructions of the positive grammar that need two cooperating types or a specific attribute shape
 EXTRA = {
